@@ -64,7 +64,11 @@ fn expectations(disk : &Disk, rng : &mut Rng) -> Vec<(String, u16, Vec<u8>)>
     let mut v = vec![];
     for (p, n) in disk.files.iter()
     {
-        if let Some(name) = p.strip_prefix(&cache_prefix()) { v.push((format!("/files/{}", name), 200, (*n.content).clone())); }
+        if let Some(name) = p.strip_prefix(&cache_prefix())
+        {
+            v.push((format!("/files/{}", name), 200, (*n.content).clone()));
+            if rng.chance(1, 4) { v.push((format!("/files/{}/extra", name), 404, vec![])); }
+        }
         if let Some(name) = p.strip_prefix(&history_prefix())
         {
             if name.ends_with(".partial") { continue; }
@@ -74,6 +78,12 @@ fn expectations(disk : &Disk, rng : &mut Rng) -> Vec<(String, u16, Vec<u8>)>
                 {
                     let body = states.iter().map(|s| crate::suites::hist::text_of_ticket(&s.0)).collect::<Vec<_>>().join("\n");
                     v.push((format!("/rules/{}/{}", name, crate::suites::hist::text_of_ticket(key)), 200, body.into_bytes()));
+                }
+                // path-like names that merely START with a recorded rule / key pair
+                if let Some((key, _)) = entries.first()
+                {
+                    let k = crate::suites::hist::text_of_ticket(key);
+                    for tail in ["extra", "..%2F..%2Fbuild.rules", &k] { v.push((format!("/rules/{}/{}/{}", name, k, tail), 404, vec![])); }
                 }
                 // a key that is not recorded
                 v.push((format!("/rules/{}/{}", name, crate::suites::hist::cache_name_of(format!("nokey{}", rng.below(1000)).as_bytes())), 404, vec![]));
